@@ -324,6 +324,7 @@ def minionPath (self : Nat) (m : Meta) (a : MinAcc) (p : String) : MinAcc :=
   match a.paths.get? p with
   | none => { a with paths := a.paths.set p self, cfgs := setValid a.cfgs self p true }
   | some hi =>
+    if hi = self then a else          -- the same minion lists the path again: it keeps it
     match a.cfgs[hi]? with
     | none => a
     | some holder =>
@@ -337,17 +338,17 @@ def minionPath (self : Nat) (m : Meta) (a : MinAcc) (p : String) : MinAcc :=
         let k := m.key
         { a with cw := a.cw.set k ((a.cw.get? k).getD [] ++ [wPathTaken p]) }
 
+def minionStep (masterHost : String) (a : MinAcc) (kv : String × Ing) : MinAcc :=
+  let i := kv.2
+  if !isMinion i then a else
+  match i.rules with
+  | [] => a
+  | (h, paths) :: _ =>
+    if masterHost ≠ h then a else
+    paths.foldl (minionPath a.cfgs.length i.md) { a with cfgs := a.cfgs ++ [{ md := i.md, validPaths := [] }] }
+
 def buildMinions (ings : Map Ing) (masterHost : String) : List MinionCfg × Map (List String) :=
-  let a := ings.foldl (fun (a : MinAcc) (kv : String × Ing) =>
-    let i := kv.2
-    if !isMinion i then a else
-    match i.rules with
-    | [] => a
-    | (h, paths) :: _ =>
-      if masterHost ≠ h then a else
-      let self := a.cfgs.length
-      let a := { a with cfgs := a.cfgs ++ [{ md := i.md, validPaths := [] }] }
-      paths.foldl (minionPath self i.md) a) {}
+  let a := ings.foldl (minionStep masterHost) {}
   (a.cfgs, a.cw)
 
 def isRegexOrExact (p : String) : Bool := p.startsWith "~" || p.startsWith "="
@@ -360,17 +361,25 @@ def vsrFits (r : VSR) (vsHost vsPath : String) : Bool :=
      (match r.subs with | [p] => p = vsPath | _ => false)
    else r.subs.all (fun p => p.startsWith vsPath))
 
-/-- `buildVirtualServerRoutes`. -/
-def buildVsrs (vsrs : Map VSR) (vs : VS) : List Meta × List String :=
-  vs.routes.foldl (fun (acc : List Meta × List String) (pr : String × String) =>
-    let (path, ref) := pr
-    if ref = "" then acc else
-    let key := if ref.contains '/' then ref else vs.md.ns ++ "/" ++ ref
-    match vsrs.get? key with
-    | none => (acc.1, acc.2 ++ ["vsr-missing:" ++ key])
-    | some r =>
-      if vsrFits r vs.host path then (acc.1 ++ [r.md], acc.2)
-      else (acc.1, acc.2 ++ ["vsr-invalid:" ++ key])) ([], [])
+def vsrKeyOf (v : VS) (ref : String) : String := if ref.contains '/' then ref else v.md.ns ++ "/" ++ ref
+
+/-- The route attached for one entry of `spec.routes` (path, reference), if any. -/
+def routeOf (vsrs : Map VSR) (v : VS) (pr : String × String) : Option Meta :=
+  if pr.2 = "" then none else
+  match vsrs.get? (vsrKeyOf v pr.2) with
+  | some r => if vsrFits r v.host pr.1 then some r.md else none
+  | none => none
+
+/-- The warning produced for one entry of `spec.routes`, if any. -/
+def routeWarnOf (vsrs : Map VSR) (v : VS) (pr : String × String) : Option String :=
+  if pr.2 = "" then none else
+  match vsrs.get? (vsrKeyOf v pr.2) with
+  | some r => if vsrFits r v.host pr.1 then none else some ("vsr-invalid:" ++ vsrKeyOf v pr.2)
+  | none => some ("vsr-missing:" ++ vsrKeyOf v pr.2)
+
+/-- `buildVirtualServerRoutes`: every `route` entry, in order, either attaches the referenced route or warns. -/
+def buildVsrs (vsrs : Map VSR) (v : VS) : List Meta × List String :=
+  (v.routes.filterMap (routeOf vsrs v), v.routes.filterMap (routeWarnOf vsrs v))
 
 def listenerMap (gc : Option (List Listener)) : Map Listener :=
   match gc with
